@@ -112,3 +112,14 @@ Fixpoint dur_seq (b : backoff) (rs : list Z) : backoff * list outcome :=
 
 (* a freshly constructed value: backoff{NoJitter: nj, Base: b, Factor: f, Cap: c} *)
 Definition fresh (nj : bool) (b f c : Z) : backoff := mkBackoff nj b f c 0.
+
+(* StreamManager.resume(): every outage (loss of the session until the next successful
+   Resume) runs its retry loop on a fresh local backoff value -- which is what reset()
+   amounts to.  [outages b ms]: for each outage with m failed attempts, the m waits. *)
+Definition zeros (n : Z) : list Z := repeat 0 (Z.to_nat n).
+
+Fixpoint outages (b : backoff) (ms : list Z) : list (list outcome) :=
+  match ms with
+  | [] => []
+  | m :: ms' => let '(b1, os) := dur_seq (reset b) (zeros m) in os :: outages b1 ms'
+  end.
